@@ -79,6 +79,10 @@ EXPLANATION += (
     ' Round 10: piecewise copies are not filtered by the content just read (R-COVER/copy-not-filtered-by-content).'
 )
 
+EXPLANATION += (
+    ' Round 11: every return of validate_h5ad follows the call of _validate_h5ad and returns its verdict (R-MUST/validation-runs).'
+)
+
 RULE_TEXT = (
     "one obligation per effect root, per mutating helper call, per "
     "rejection point, per log conditional, per layer argument, per uns "
